@@ -196,8 +196,8 @@ impl Property for C10 {
     }
     fn cases(&self, tier: Tier) -> u64 {
         match tier {
-            Tier::Quick => 10000,
-            Tier::Thorough => 16 * 60000,
+            Tier::Quick => 80000,
+            Tier::Thorough => 80000 * 100,
         }
     }
     fn required_classes(&self) -> Vec<&'static str> {
